@@ -22,7 +22,7 @@ def C(name, bases=(), self_attrs=None, **kw):
 
 
 GEOM_REQ = ['Gen_keypoints_utils', 'Gen_bbox_utils', 'Gen_geom_functional', 'Gen_geom_arrays',
-            'Gen_dropout_functional', 'Gen_crops_functional']
+            'Gen_dropout_functional', 'Gen_crops_functional', 'Gen_dicom_functional']
 
 
 def class_modules():
@@ -63,6 +63,33 @@ def class_modules():
                    self_attrs={'max_part_shift': 'tuple:Q,Q,Q'},
                    samplers={'get_params_dependent_on_targets': [('tgt_cropping_bbox_key', 'c6')]}),
              ]),
+        dict(file='dicaugment/augmentations/geometric/resize.py', coq_module='Gen_cls_resize',
+             requires=GEOM_REQ,
+             classes=[C('RandomScale', methods=['apply_to_dicom', 'apply_to_keypoint']),
+                      C('LongestMaxSize', methods=['apply_to_dicom', 'apply_to_keypoint']),
+                      C('SmallestMaxSize', methods=['apply_to_dicom', 'apply_to_keypoint']),
+                      C('Resize', methods=['apply_to_dicom', 'apply_to_keypoint'],
+                        self_attrs={'height': 'Z', 'width': 'Z', 'depth': 'Z'})]),
+        dict(file='dicaugment/augmentations/geometric/transforms.py', coq_module='Gen_cls_geom_dicom',
+             requires=GEOM_REQ,
+             classes=[C('ShiftScaleRotate', methods=['apply_to_dicom']),
+                      C('Transpose', methods=['apply_to_dicom'], coq_prefix='TransposeD')]),
+        dict(file='dicaugment/augmentations/dicom/transforms.py', coq_module='Gen_cls_dicom',
+             requires=GEOM_REQ,
+             classes=[C('SetPixelSpacing', methods=['apply_to_dicom', 'apply_to_keypoint']),
+                      C('SetPixelSpacing', methods=[], coq_prefix='SetPixelSpacingS',
+                        self_attrs={'space_x': 'Q', 'space_y': 'Q'},
+                        samplers={'get_params_dependent_on_targets': [('tgt_dicom', 'hdr')]}),
+                      C('RescaleSlopeIntercept', methods=['apply_to_dicom']),
+                      C('RescaleSlopeIntercept', methods=[], coq_prefix='RescaleSlopeInterceptS',
+                        samplers={'get_params_dependent_on_targets': [('tgt_dicom', 'hdr')]})]),
+        dict(file='dicaugment/augmentations/crops/transforms.py', coq_module='Gen_cls_crops_dicom',
+             requires=GEOM_REQ,
+             classes=[C('RandomSizedCrop', methods=['apply_to_dicom'], self_attrs={'height': 'Z', 'width': 'Z'}),
+                      C('RandomSizedBBoxSafeCrop', methods=['apply_to_dicom'], self_attrs={'height': 'Z', 'width': 'Z'}),
+                      C('CropAndPad', methods=['apply_to_dicom'], self_attrs={'keep_size': 'bool'})]),
+        dict(file='dicaugment/core/transforms_interface.py', coq_module='Gen_cls_iface', requires=GEOM_REQ,
+             classes=[C('DualTransform', methods=['apply_to_dicom'])]),
         dict(file='dicaugment/augmentations/dropout/coarse_dropout.py', coq_module='Gen_cls_coarse',
              requires=GEOM_REQ, classes=[C('CoarseDropout', methods=['apply', 'apply_to_mask'])]),
         dict(file='dicaugment/augmentations/dropout/grid_dropout.py', coq_module='Gen_cls_grid',
@@ -179,6 +206,14 @@ def base_modules():
         dict(file='dicaugment/augmentations/dropout/functional.py', coq_module='Gen_dropout_functional', requires=[],
              functions=[
                  F('cutout', [('img', 'arr'), ('holes', 'holes'), ('fill_value', 'Q')]),
+             ]),
+        dict(file='dicaugment/augmentations/dicom/functional.py', coq_module='Gen_dicom_functional', requires=[],
+             functions=[
+                 F('dicom_scale', [('dicom', 'hdr'), ('scale_x', 'Q'), ('scale_y', 'Q')]),
+                 F('transpose_dicom', [('dicom', 'hdr')]),
+                 F('reset_dicom_slope_intercept', [('dicom', 'hdr')]),
+                 # one voxel of the image (the function is element-wise): img is a float here
+                 F('rescale_slope_intercept', [('img', 'Q'), ('slope', 'Q'), ('intercept', 'Q')]),
              ]),
         dict(file='dicaugment/augmentations/crops/functional.py', coq_module='Gen_crops_functional',
              requires=['Gen_keypoints_utils', 'Gen_bbox_utils', 'Gen_geom_functional'],
